@@ -401,6 +401,12 @@ func init() {
 			return "", err
 		}
 		sb.WriteString(rplan)
+		// round 13: the critical section of writeAheadLog.GetOrCreatePartition (facts_c08_wal.go)
+		wal, err := c08WalFacts(repo)
+		if err != nil {
+			return "", err
+		}
+		sb.WriteString(wal)
 		return sb.String(), nil
 	}})
 }
